@@ -1,6 +1,7 @@
 import Proofs.BCHBound
 import Kaira.BM
 import Proofs.Decoders
+import Proofs.Syndrome
 
 /-! # Berlekamp–Massey decoder: what can be said for every code word -/
 namespace BMProofs
@@ -226,5 +227,224 @@ theorem bm_output_certified (c : BchInst) (hok : bchOk c = true) (t : Nat) (ht :
   have := congrArg (fun x => x.testBit i) hwz
   simp only [Nat.testBit_xor, Nat.zero_testBit] at this
   cases h1 : out.testBit i <;> cases h2 : cw.testBit i <;> simp_all
+
+
+
+/-- the tabular recursion for `t = 1` with a non-zero first syndrome: `σ(x) = 1 + S₁ x` -/
+theorem bm_t1 (P m S1 S2 : Nat) (h1 : S1 ≠ 0) : bm P m 1 [S1, S2] = [1, S1] := by
+  have hf1 : GF2m.fmul P S1 1 = S1 := by
+    unfold GF2m.fmul
+    by_cases h : S1 = 1
+    · simp [h]
+    · simp [h1, h]
+  have hf2 : GF2m.fmul P 1 S1 = S1 := by
+    unfold GF2m.fmul
+    simp [h1]
+  have hf0 : GF2m.fmul P 0 S1 = 0 := by unfold GF2m.fmul; simp
+  simp [bm, bmStep, pickK, pickK.go, padTo, finv?, h1, hf1, hf2, hf0, List.range_succ]
+
+
+
+
+
+theorem filter_range_single (n p : Nat) (hp : p < n) (f : Nat → Bool) (hf : ∀ j, j < n → (f j = true ↔ j = p)) :
+    (List.range n).filter f = [p] := by
+  induction n with
+  | zero => omega
+  | succ n ih =>
+    rw [List.range_succ, List.filter_append]
+    by_cases hpn : p = n
+    · subst hpn
+      have h1 : (List.range p).filter f = [] := by
+        apply List.filter_eq_nil_iff.mpr
+        intro j hj
+        have hj' := List.mem_range.mp hj
+        have := hf j (by omega)
+        intro hfj
+        have := this.mp hfj
+        omega
+      have h2 : f p = true := (hf p (by omega)).mpr rfl
+      simp [h1, h2]
+    · have hlt : p < n := by omega
+      have h1 := ih hlt (fun j hj => hf j (by omega))
+      have h2 : f n = false := by
+        cases hfn : f n
+        · rfl
+        · have := (hf n (by omega)).mp hfn
+          omega
+      simp [h1, h2]
+
+theorem bitSum_unit {P : Nat} [Good P] (x : Elt P) (p n : Nat) (hp : p < n) : bitSum x (1 <<< p) n = x ^ p := by
+  unfold bitSum
+  rw [Finset.sum_eq_single p]
+  · rw [if_pos (by rw [Nat.one_shiftLeft, Nat.testBit_two_pow]; simp)]
+  · intro j _ hj
+    rw [if_neg]
+    rw [Nat.one_shiftLeft, Nat.testBit_two_pow]
+    simp; omega
+  · intro hnot
+    exact absurd (Finset.mem_range.mpr hp) hnot
+
+theorem syndAt_unit {c : BchInst} (f : OkFacts c) [Good c.P] (p i : Nat) (hp : p < c.n) :
+    syndAt c.P c.n (1 <<< p) i = ((alpha f ^ i) ^ p).val := by
+  unfold syndAt
+  have e : fpow c.P 2 i = (alpha f ^ i).val := Field18.fpow_model_eq (alpha f) i
+  simp only [e]
+  rw [foldl_eq_bitSum (alpha f ^ i) (1 <<< p) c.n, bitSum_unit _ p c.n hp]
+
+theorem syndAt_zero_word (P n i : Nat) : syndAt P n 0 i = 0 := by
+  unfold syndAt
+  induction List.range n with
+  | nil => rfl
+  | cons j l ih => simp
+
+/-- powers of `α` below the order: `α^a = 1 ↔ n ∣ a` -/
+theorem pow_eq_one_iff {c : BchInst} (f : OkFacts c) [Good c.P] (a : Nat) : alpha f ^ a = 1 ↔ c.n ∣ a := by
+  rw [← f.order]; exact (orderOf_dvd_iff_pow_eq_one).symm
+
+/-- **Chien-style search on the locator `1 + α^p x`** finds exactly position `p` -/
+theorem locate_single {c : BchInst} (f : OkFacts c) [Good c.P] (p : Nat) (hp : p < c.n) :
+    locate c.P c.n [1, (alpha f ^ p).val] = [p] := by
+  have hn : 0 < c.n := by omega
+  apply filter_range_single c.n p hp
+  intro j hj
+  -- the evaluation point as a field element
+  set x : Elt c.P := if j > 0 then alpha f ^ (c.n - j) else 1 with hx
+  have hxv : (if j > 0 then fpow c.P 2 (c.n - j) else 1) = x.val := by
+    rw [hx]; split
+    · exact Field18.fpow_model_eq (alpha f) _
+    · rfl
+  have hev : evalList c.P [(1 : Elt c.P).val, (alpha f ^ p).val] x.val = (1 + alpha f ^ p * x).val := by
+    unfold evalList
+    simp only [List.zipIdx_cons, List.zipIdx_nil, List.foldl_cons, List.foldl_nil, Nat.zero_add, Nat.zero_xor]
+    rw [Field18.fpow_model_eq x 0, Field18.fpow_model_eq x 1, Field18.fmul_model_eq 1 (x ^ 0),
+      Field18.fmul_model_eq (alpha f ^ p) (x ^ 1), pow_zero, pow_one, mul_one]
+    rfl
+  have hlist : ([1, (alpha f ^ p).val] : List Nat) = [(1 : Elt c.P).val, (alpha f ^ p).val] := rfl
+  rw [hlist]
+  simp only [hxv, hev, beq_iff_eq]
+  have hzero : (1 + alpha f ^ p * x).val = 0 ↔ alpha f ^ p * x = 1 := by
+    constructor
+    · intro h
+      have h0 : (1 : Elt c.P) + alpha f ^ p * x = 0 := Subtype.ext h
+      have := congrArg (fun z => 1 + z) h0
+      simp only [← add_assoc, add_self_elt, zero_add, add_zero] at this
+      exact this
+    · intro h; rw [h, add_self_elt]; rfl
+  rw [hzero, hx]
+  by_cases hj0 : j > 0
+  · simp only [hj0, if_true]
+    rw [← pow_add, pow_eq_one_iff f]
+    constructor
+    · intro hd
+      obtain ⟨q, hq⟩ := hd
+      have h1 : 0 < p + (c.n - j) := by omega
+      have h2 : p + (c.n - j) < 2 * c.n := by omega
+      have hq1 : q = 1 := by
+        rcases Nat.lt_or_ge q 1 with h | h
+        · have : q = 0 := by omega
+          subst this; omega
+        · rcases Nat.lt_or_ge q 2 with h' | h'
+          · omega
+          · have : c.n * 2 ≤ c.n * q := Nat.mul_le_mul_left _ h'
+            omega
+      subst hq1; omega
+    · intro hjp; subst hjp
+      exact ⟨1, by omega⟩
+  · have hj00 : j = 0 := by omega
+    simp only [hj0, if_false, mul_one]
+    rw [pow_eq_one_iff f]
+    constructor
+    · intro hd
+      have : p = 0 := Nat.eq_zero_of_dvd_of_lt hd hp
+      omega
+    · intro hjp
+      rw [← hjp, hj00]; exact dvd_zero _
+
+/-- **Berlekamp–Massey corrects every single error** — every certified BCH instance with design distance `δ ≥ 3`, every
+length, every message, every position -/
+theorem bm_single_error (c : BchInst) (hok : bchOk c = true) (hd : 2 < c.delta) (msg p : Nat) (hp : p < c.n) :
+    correct c.P c.m 1 c.n (encode c.G msg ^^^ (1 <<< p)) = encode c.G msg := by
+  have f := facts_of_ok c hok
+  have := f.good
+  rw [bm_reduction c 1 hok (by omega) msg (1 <<< p)]
+  suffices h : correct c.P c.m 1 c.n (1 <<< p) = 0 by rw [h, Nat.xor_zero]
+  unfold correct estimate synd
+  have hS : (List.range' 1 (2 * 1)).map (syndAt c.P c.n (1 <<< p)) = [(alpha f ^ p).val, ((alpha f ^ 2) ^ p).val] := by
+    simp only [List.range'_succ, List.range'_zero, List.map_cons, List.map_nil, Nat.mul_one,
+      show (2 : Nat) = 1 + 1 from rfl]
+    rw [syndAt_unit f p 1 hp, syndAt_unit f p (1 + 1) hp, pow_one]
+  rw [hS]
+  have hne : (alpha f ^ p).val ≠ 0 := by
+    intro h0
+    have hz : alpha f ^ p = 0 := Subtype.ext h0
+    have hone : alpha f ^ c.n = 1 := by rw [pow_eq_one_iff f]
+    have : (alpha f ^ p) ^ c.n = 0 := by rw [hz, zero_pow (by omega)]
+    rw [← pow_mul, mul_comm, pow_mul, hone, one_pow] at this
+    exact one_ne_zero this
+  have hall : ([(alpha f ^ p).val, ((alpha f ^ 2) ^ p).val].all (· == 0)) = false := by
+    simp [hne]
+  rw [hall]
+  simp only [Bool.false_eq_true, if_false]
+  rw [bm_t1 _ _ _ _ hne, locate_single f p hp]
+  simp [maskOfPositions]
+
+/-- … and leaves every code word untouched -/
+theorem bm_no_error (c : BchInst) (hok : bchOk c = true) (t : Nat) (ht : 2 * t < c.delta) (msg : Nat) :
+    correct c.P c.m t c.n (encode c.G msg) = encode c.G msg := by
+  have h := bm_reduction c t hok ht msg 0
+  rw [Nat.xor_zero] at h
+  rw [h]
+  have : correct c.P c.m t c.n 0 = 0 := by
+    unfold correct estimate synd
+    have : ((List.range' 1 (2 * t)).map (syndAt c.P c.n 0)).all (· == 0) = true := by
+      simp [syndAt_zero_word]
+    rw [this]; simp
+  rw [this, Nat.xor_zero]
+
+
+
+/-- a word below `2^n` with at most one 1 is zero or a single bit -/
+theorem light_one (n e : Nat) (he : e < 2 ^ n) (hw : weight n e ≤ 1) : e = 0 ∨ ∃ p, p < n ∧ e = 1 <<< p := by
+  by_cases h0 : e = 0
+  · exact Or.inl h0
+  · right
+    have hL : e.log2 < n := (Nat.log2_lt h0).mpr he
+    refine ⟨e.log2, hL, ?_⟩
+    have hw' := DistInfo.weight_clear_top n e h0 he
+    have hz : weight n (e % 2 ^ e.log2) = 0 := by omega
+    have hr : e % 2 ^ e.log2 = 0 := by
+      apply SynProofs.eq_zero_of_sub_weight 0 n _ _ hz
+      intro i hi
+      refine ⟨Nat.zero_le _, ?_⟩
+      by_contra hge
+      have : e % 2 ^ e.log2 < 2 ^ i := lt_of_lt_of_le (lt_of_le_of_lt (Nat.mod_le _ _) he) (Nat.pow_le_pow_right (by decide) (by omega))
+      rw [Nat.testBit_lt_two_pow this] at hi
+      cases hi
+    have hlt : e < 2 ^ (e.log2 + 1) := (Nat.log2_lt h0).mp (Nat.lt_succ_self _)
+    have hge : 2 ^ e.log2 ≤ e := Nat.log2_self_le h0
+    have hdiv : e = 2 ^ e.log2 * (e / 2 ^ e.log2) := by
+      have := Nat.div_add_mod e (2 ^ e.log2)
+      omega
+    have hq : e / 2 ^ e.log2 = 1 := by
+      have hpos : 0 < 2 ^ e.log2 := Nat.two_pow_pos _
+      have h1 : e / 2 ^ e.log2 < 2 := by
+        rw [Nat.div_lt_iff_lt_mul hpos]
+        rw [pow_succ] at hlt
+        omega
+      have h2 : 0 < e / 2 ^ e.log2 := Nat.div_pos hge hpos
+      omega
+    rw [hq, Nat.mul_one] at hdiv
+    rw [Nat.one_shiftLeft]
+    exact hdiv
+
+/-- **t = 1: every error pattern of weight ≤ 1 on every code word, every certified BCH instance with δ ≥ 3, every length** -/
+theorem bm_corrects_t1 (c : BchInst) (hok : bchOk c = true) (hd : 2 < c.delta) (msg e : Nat) (he : e < 2 ^ c.n)
+    (hw : weight c.n e ≤ 1) : correct c.P c.m 1 c.n (encode c.G msg ^^^ e) = encode c.G msg := by
+  rcases light_one c.n e he hw with h0 | ⟨p, hp, rfl⟩
+  · subst h0
+    rw [Nat.xor_zero]
+    exact bm_no_error c hok 1 (by omega) msg
+  · exact bm_single_error c hok hd msg p hp
 
 end BMProofs
